@@ -42,6 +42,7 @@ func runC04(c *Ctx) {
 	c02DoRedo(c, "C04.18")
 	c11MarkDirty(c, "C04.19")
 	ruleWholePageWrite(c, "C04.20")
+	ruleNoLoopVarCapture(c, "C04.22", "storage", "engine")
 	ruleAppendedPageDirty(c, "C04.21")
 	// the log append of a statement is in the same bracket as its page changes (otherwise the timer
 	// flush can write an unlogged change and its LSN to the data file)
